@@ -28,6 +28,10 @@ const (
 // of the run; simulated inside a bubble) before it answers honestly.
 const SlowPrefix = "slow:"
 
+// ActPrefix marks another non-fault: "act:<what>" calls OnAct(<what>) when the request has been received and before
+// it is answered - honestly, on the state after the act. Somebody else is a client of the same agent.
+const ActPrefix = "act:"
+
 // AllFaults lists the fault kinds.
 var AllFaults = []string{FaultFail, FaultEmpty, FaultGarbage, FaultWrongType, FaultOversize,
 	FaultCloseBefore, FaultCloseMid, FaultCloseAfter, FaultTruncBody}
@@ -56,6 +60,8 @@ type Peer struct {
 	OnReply func(kind string, req, reply []byte)
 	// OnSlow is called before a slow (but honest) reply is delayed.
 	OnSlow func(kind string, secs int64)
+	// OnAct performs an "act:" entry.
+	OnAct func(what, kind string, reqIndex int)
 
 	reqIndex int
 	perKind  map[string]int
@@ -196,6 +202,13 @@ func (p *Peer) Serve(c io.ReadWriteCloser) int {
 				p.OnSlow(kind, secs)
 			}
 			time.Sleep(time.Duration(secs) * time.Second)
+			fi = -1
+		}
+		if fi >= 0 && strings.HasPrefix(fault, ActPrefix) {
+			p.fired[fi] = true
+			if p.OnAct != nil {
+				p.OnAct(fault[len(ActPrefix):], kind, idx)
+			}
 			fi = -1
 		}
 		if fi >= 0 {
